@@ -115,18 +115,18 @@ const (
 type ansClass int
 
 const (
-	clsFinal     ansClass = iota // valid message, non-temporary code
-	clsTemporary                 // valid message, temporary code
-	clsUndecodable               // delivered but not a valid response message
-	clsNothing                   // nothing delivered
-	clsExpire                    // context expires during this attempt
+	clsFinal       ansClass = iota // valid message, non-temporary code
+	clsTemporary                   // valid message, temporary code
+	clsUndecodable                 // delivered but not a valid response message
+	clsNothing                     // nothing delivered
+	clsExpire                      // context expires during this attempt
 )
 
 type histAnswer struct {
 	env.Answer
-	Class ansClass
-	Code  byte // for clsFinal/clsTemporary: completion code; 0 = the BMC's own
-	Own   bool // use the BMC's honest code/body
+	Class   ansClass
+	Code    byte // for clsFinal/clsTemporary: completion code; 0 = the BMC's own
+	Own     bool // use the BMC's honest code/body
 	BodyErr bool // body is cut so that body decoding fails (only meaningful for commands with a response body)
 }
 
@@ -189,7 +189,7 @@ type histCfg struct {
 	Ops       []int     `json:"ops"`
 	Horizon   int       `json:"horizon"`
 	// MenuOps: positions in Ops at which the answer menu is offered (nil: all)
-	MenuOps []int  `json:"menu_ops,omitempty"`
+	MenuOps  []int  `json:"menu_ops,omitempty"`
 	Alphabet string `json:"alphabet"`
 	// HSAlphabet, if set, offers a menu at the handshake's sends too.
 	HSAlphabet string `json:"hs_alphabet,omitempty"`
@@ -213,17 +213,17 @@ type opResult struct {
 }
 
 type histObs struct {
-	HandshakeErr string
-	Results      []opResult
-	W            *World
-	SeqAfter     uint32
-	SessRemoteID uint32
-	SessLocalID  uint32
+	HandshakeErr       string
+	Results            []opResult
+	W                  *World
+	SeqAfter           uint32
+	SessRemoteID       uint32
+	SessLocalID        uint32
 	HandshakeExchanges int
-	BS           *ref.Session
-	HS           opResult // answers given during the handshake
-	SessOK       bool
-	KeysOK       bool
+	BS                 *ref.Session
+	HS                 opResult // answers given during the handshake
+	SessOK             bool
+	KeysOK             bool
 }
 
 // histMenu builds the menu function for an alphabet name; checks register
